@@ -334,6 +334,7 @@ class World:
         self.prop = prop
         self.log = log
         self.zk = zkmod.SimZk(clock, log)
+        self.zk.order_seed = config.get('child_order')
         self.admin = self.zk.connect('admin')
         self.node_sessions = {}       # server -> client (presence owner)
         self.master = None
@@ -1756,6 +1757,9 @@ def make_config(prop, tier, rng):
             if key not in ('app_create', 'master_cycle', 'process',
                            'drain') else rng.choice([0.7, 1.0, 1.5])
     cfg['wmul'] = wmul
+    # ZooKeeper promises no order of the children it lists: an arbitrary but
+    # fixed order per run (None: sorted by name)
+    cfg['child_order'] = rng.getrandbits(32) if rng.random() < 0.5 else None
     return cfg
 
 
